@@ -1,7 +1,7 @@
 # C07 — the proxy heals after connection loss and topology change
 import json
 import vlib
-from props.common import differential, add_corr
+from props.common import differential, add_corr, replica_routing
 
 
 def run(rep, tier, seed, replay):
@@ -37,5 +37,11 @@ def run(rep, tier, seed, replay):
         found = True
         rep.violation({"kind": "history", "oracle": what, "case": {"line": cases[i], "format": "nodes layout # q <request> | kill n | down n | up n | lay lo hi n | w"},
                        "impl": impl[i], "model": model[i], "failing_cases": len(mm)})
+    # replicas: a read strategy that uses them must heal after a replica's connection is lost, and the first redirection after a
+    # replica reassignment must bring the table up to date (end to end, with and without a periodic refresh)
+    v = replica_routing(rep, PROP, seed + 7, tier)
+    if v and not found:
+        found = True
+        rep.violation(v)
     if not pr["ok"] and not found:
         rep.violation({"kind": "broken-tie", "theorem": pr.get("broken"), "detail": pr.get("tail"), "searched": "every fault history behaved as the model"}, found_input=False)
